@@ -26,6 +26,17 @@ def keys(c, stride=1):
         ks += [bytes.fromhex(h) for h in WEAK + SEMIWEAK]
         base = expander(8, 2)
         ks += [bytes(b ^ (1 if i == j else 0) for i, b in enumerate(base)) for j in range(8)]   # keys differing only in parity bits
+    if c.startswith('tf'):
+        # keys whose derived parity word k_Nw = C240 ^ k_0 ^ ... takes boundary values (an intermediate that is 0, 1, 2^32-1, ...)
+        C240 = 0x1BD11BDAA9FC1A22
+        for v in (0, 1, 3, (1 << 32) - 1, 1 << 32, (1 << 63) - 1, 1 << 63, (1 << 64) - 1, (1 << 64) - 2):
+            ks.append(bytes(n - 8) + (C240 ^ v).to_bytes(8, 'little'))
+            ks.append((C240 ^ v ^ 0x0101010101010101).to_bytes(8, 'little') + (0x0101010101010101).to_bytes(8, 'little') + bytes(n - 16))
+    if c.startswith('aes') or c == 'serpent':
+        # keys with equal / complementary neighbouring words
+        w = expander(4, 7)
+        ks.append((w * (n // 4 + 1))[:n])
+        ks.append((w + bytes(x ^ 255 for x in w)) * (n // 8) + bytes(n % 8))
     return ks
 
 
